@@ -74,6 +74,7 @@ inductive Kind
   | clear (accept : List (String × Bytes))     -- `check(username, password)` accepts exactly these pairs
   | nologin
   | custom2                                      -- a two-round plugin used to exercise the AuthMoreData loop
+  | trust                                        -- accepts whoever answers (client plugin name `None`)
 deriving Repr
 
 structure Plugin where
@@ -95,6 +96,7 @@ inductive PState
   | nativeWait (nonce : Bytes)
   | clearWait
   | nologinWait
+  | trustWait
   | custom (round : Nat)
   | done
 deriving Repr, DecidableEq
@@ -125,6 +127,10 @@ def start (H : Bytes → Bytes) (alphabet : Bytes) (p : Plugin) (info : Option I
     match info with
     | some _ => (.forbidden, .done, false)
     | none => (.more FILLER, .nologinWait, false)
+  | .trust =>
+    match info with
+    | some i => (.success i.username, .done, false)
+    | none => (.more FILLER, .trustWait, false)
   | .custom2 => (.more [114, 111, 117, 110, 100, 49, 95, 95, 95, 95, 95, 95, 95, 95, 95, 95], .custom 1, false)
 
 /-- `auth_state.asend(auth_info)` -/
@@ -133,6 +139,7 @@ def send (H : Bytes → Bytes) (p : Plugin) (st : PState) (i : Info) : Decision 
   | .nativeWait nonce, _ => ((if passwordMatches H i.user i.data nonce then .success i.user.name else .forbidden), .done)
   | .clearWait, .clear acc => (clearDecide acc i, .done)
   | .nologinWait, _ => (.forbidden, .done)
+  | .trustWait, _ => (.success i.username, .done)
   | .custom 1, _ => if i.data = [97] then (.more [114, 111, 117, 110, 100, 50, 95, 95, 95, 95, 95, 95, 95, 95, 95, 95], .custom 2) else (.forbidden, .done)
   | .custom 2, _ => if i.data = [98] then (.success i.username, .done) else (.forbidden, .done)
   | _, _ => (.raised, .done)
@@ -177,6 +184,36 @@ def moreLoop (H : Bytes → Bytes) (p : Plugin) (info : Info) :
         let t := moreLoop H p info fuel x.1 x.2 rs
         (.more data :: t.1, t.2)
 
+/-- after an auth-switch request: read the client's answer, feed it to the plugin, continue with the loop -/
+def afterSwitch (H : Bytes → Bytes) (up : Plugin) (info : Info) (cn : String) (data : Bytes) (st : PState) :
+    List Bytes → List AOut × ARes
+  | [] => ([.switchReq cn data], .waiting)
+  | r :: rs =>
+    (.switchReq cn data ::
+      (moreLoop H up { info with data := r } (rs.length + 2) (send H up st { info with data := r }).1
+        (send H up st { info with data := r }).2 rs).1,
+     (moreLoop H up { info with data := r } (rs.length + 2) (send H up st { info with data := r }).1
+        (send H up st { info with data := r }).2 rs).2)
+
+/-- "Mismatch - switch authentication method": start the user's plugin from scratch -/
+def startFresh (H : Bytes → Bytes) (alphabet : Bytes) (up : Plugin) (info : Info) (draws : List Nat)
+    (replies : List Bytes) : List AOut × ARes :=
+  match up.clientName, (start H alphabet up none draws).1 with
+  | some cn, .more data => afterSwitch H up info cn data (start H alphabet up none draws).2.1 replies
+  | _, d => moreLoop H up info (replies.length + 2) d (start H alphabet up none draws).2.1 replies
+
+/-- "Continue with provided client plugin" -/
+def startWithInfo (H : Bytes → Bytes) (alphabet : Bytes) (up : Plugin) (info : Info) (draws : List Nat)
+    (replies : List Bytes) : List AOut × ARes :=
+  moreLoop H up info (replies.length + 2) (start H alphabet up (some info) draws).1
+    (start H alphabet up (some info) draws).2.1 replies
+
+def mkInfo (username : String) (data : Bytes) (user : User) (clientPlugin : Option String) (hsData : Option Bytes)
+    (hsPlugin : String) : Info :=
+  { username := username, data := data, user := user, clientPlugin := clientPlugin, hsData := hsData, hsPlugin := hsPlugin }
+
+def clientMatches (p : Plugin) (clientPlugin : Option String) : Bool := p.clientName.isNone || p.clientName == clientPlugin
+
 /-- `authenticate(username, auth_response, client_plugin_name, ..., auth_state, server_plugin)`.
     `server`: the default plugin and its started generator (handshake only). `replies`: the packets the client
     sends when asked.  Returns the packets written and the outcome. -/
@@ -189,42 +226,21 @@ def authenticate (H : Bytes → Bytes) (alphabet : Bytes) (e : Env) (server : Op
     match (match e.plugin (user.plugin.getD "") with | some p => some p | none => e.plugins.head?) with
     | none => ([], .raisedExc)
     | some up =>
-      let info : Info := { username := username, data := authResponse, user := user, clientPlugin := clientPlugin,
-                           hsData := hsData, hsPlugin := hsPlugin }
       match server with
       | some (sp, sst) =>
-        if (sp.clientName.isNone || sp.clientName == clientPlugin) && sp.name == up.name then
+        if clientMatches sp clientPlugin && sp.name == up.name then
           -- optimistic match during handshake
-          let x := send H sp sst info
-          moreLoop H up info (replies.length + 2) x.1 x.2 replies
-        else if up.clientName.isNone || up.clientName == clientPlugin then
-          let x := start H alphabet up (some info) draws
-          moreLoop H up info (replies.length + 2) x.1 x.2.1 replies
+          moreLoop H up (mkInfo username authResponse user clientPlugin hsData hsPlugin) (replies.length + 2)
+            (send H sp sst (mkInfo username authResponse user clientPlugin hsData hsPlugin)).1
+            (send H sp sst (mkInfo username authResponse user clientPlugin hsData hsPlugin)).2 replies
+        else if clientMatches up clientPlugin then
+          startWithInfo H alphabet up (mkInfo username authResponse user clientPlugin hsData hsPlugin) draws replies
         else
-          let x := start H alphabet up none draws
-          match up.clientName, x.1 with
-          | some cn, .more data =>
-            match replies with
-            | [] => ([.switchReq cn data], .waiting)
-            | r :: rs =>
-              let y := send H up x.2.1 { info with data := r }
-              let t := moreLoop H up { info with data := r } (rs.length + 2) y.1 y.2 rs
-              (.switchReq cn data :: t.1, t.2)
-          | _, d => moreLoop H up info (replies.length + 2) d x.2.1 replies
+          startFresh H alphabet up (mkInfo username authResponse user clientPlugin hsData hsPlugin) draws replies
       | none =>
-        if up.clientName.isNone || up.clientName == clientPlugin then
-          let x := start H alphabet up (some info) draws
-          moreLoop H up info (replies.length + 2) x.1 x.2.1 replies
+        if clientMatches up clientPlugin then
+          startWithInfo H alphabet up (mkInfo username authResponse user clientPlugin hsData hsPlugin) draws replies
         else
-          let x := start H alphabet up none draws
-          match up.clientName, x.1 with
-          | some cn, .more data =>
-            match replies with
-            | [] => ([.switchReq cn data], .waiting)
-            | r :: rs =>
-              let y := send H up x.2.1 { info with data := r }
-              let t := moreLoop H up { info with data := r } (rs.length + 2) y.1 y.2 rs
-              (.switchReq cn data :: t.1, t.2)
-          | _, d => moreLoop H up info (replies.length + 2) d x.2.1 replies
+          startFresh H alphabet up (mkInfo username authResponse user clientPlugin hsData hsPlugin) draws replies
 
 end Mimic.Auth
